@@ -8,5 +8,7 @@ open Pyrealb.C13
 #print axioms caller_unchanged_holds
 #print axioms no_capture_holds
 #print axioms interleaving_independent_partial
+#print axioms interleaving_independent_holds
+#print axioms runLOp_agree
 #print axioms other_side_unchanged
 #print axioms clone_sep
